@@ -1,13 +1,84 @@
 """Event traces of a function: stores, assignments and calls with path conditions and loop context,
 obtained by symbolic folding (if-merging, loops unrolled twice with distinct index symbols)."""
-from . import symeval
+import ast
+
+from . import form, symeval
 from .core import AnalysisError
+from .form import Rat
 
 
-def trace(prog, qual, env=None, hook=None, loop_mode="unroll2", merge=True, max_paths=512, own=False):
+_KNOWN = None
+
+
+def known_methods():
+    global _KNOWN
+    if _KNOWN is None:
+        import json
+        import os
+        from .harness import VERIF_DIR
+        with open(os.path.join(VERIF_DIR, "tables", "known_methods.json")) as fh:
+            _KNOWN = json.load(fh)["classes"]
+    return _KNOWN
+
+
+def helper_hook(prog, clsqual, user_hook=None, depth=2):
+    """Call hook that sees through helper methods introduced after the rules were written: self.<m>(...) where <m> is a method of
+    the class (or a base) that tables/known_methods.json does not list is evaluated in place (events recorded under the caller's path
+    conditions, in-place operations on parameters included) and replaced by its return value.  Known methods stay opaque."""
+    cls = prog.cls(clsqual, required=False)
+
+    def hook(ev, node, rname, args, kwargs, path):
+        if user_hook is not None:
+            r = user_hook(ev, node, rname, args, kwargs, path)
+            if r is not None:
+                return r
+        fn = node.func
+        if cls is None or depth <= 0 or not (isinstance(fn, ast.Attribute) and isinstance(fn.value, ast.Name) and fn.value.id == "self"):
+            return None
+        hit = prog.lookup_method(cls, fn.attr)
+        if hit is None:
+            return None
+        owner, fdef = hit
+        if fn.attr in known_methods().get(owner.qual, [fn.attr]):
+            return None
+        params = [a.arg for a in fdef.args.args if a.arg != "self"]
+        env = {k: v for k, v in path.env.items() if k.startswith("self.")}
+        for p_, a in zip(params, args):
+            env[p_] = a
+        env.update(kwargs)
+        sub = symeval.Evaluator(owner.module, call_hook=helper_hook(prog, clsqual, user_hook, depth - 1), max_paths=ev.max_paths)
+        sub.loop_mode, sub.merge_ifs, sub.record = ev.loop_mode, True, ev.record
+        sub.events, sub.loop_stack, sub.iter_tag, sub.no_thread_prefixes = ev.events, ev.loop_stack, ev.iter_tag, ev.no_thread_prefixes
+        for p_, d in zip(params[len(params) - len(fdef.args.defaults):], fdef.args.defaults):
+            if p_ not in env:
+                env[p_] = sub.ev(d, symeval.Path({}, []))
+        try:
+            sub.outcomes = []
+            live = sub.exec_block(fdef.body, [symeval.Path(env, list(path.conds))])
+        except symeval.Undecided:
+            return None
+        outs = [o for o in sub.outcomes if o.kind == "return"]
+        if not outs:
+            return Rat.sym("None")
+        base = len(path.conds)
+        val = outs[-1].value
+        for o in reversed(outs[:-1]):
+            cond = None
+            for c_, pol in o.conds[base:]:
+                lit = c_ if pol else form.apply("not", [c_])
+                cond = lit if cond is None else form.apply("and", [cond, lit])
+            if cond is not None and isinstance(o.value, Rat) and isinstance(val, Rat):
+                val = form.apply("ifexp", [cond, o.value, val])
+        return val
+    return hook
+
+
+def trace(prog, qual, env=None, hook=None, loop_mode="unroll2", merge=True, max_paths=512, own=False, inline_helpers=True):
     f = prog.own_method(qual) if own else prog.func(qual)
     parts = qual.split(".")
     m = prog.module(".".join(parts[:2]))
+    if inline_helpers and len(parts) >= 4:
+        hook = helper_hook(prog, ".".join(parts[:3]), hook)
     ev = symeval.Evaluator(m, call_hook=hook, max_paths=max_paths)
     ev.loop_mode = loop_mode
     ev.merge_ifs = merge
